@@ -26,7 +26,12 @@ def build_cases(tier, seed):
             prof["network"] = "grid"
         # low thresholds let the built-in dispatcher send nearly empty vehicles on trips they cannot finish
         ctrl = BUILTIN if i % 2 == 0 else hostile_stack(p=0.25, builtin=True, kinds=["DispatchTrip", "DispatchTrip", "Idle", "DispatchStation", "Reposition", "OutOfService", "ReserveBase", "DispatchBase"])
-        cases.append(trace_case("C17", i, s, prof, ctrl, steps, ["C17"]))
+        opts = {}
+        if i % 4 == 0:
+            # a co-simulation client adds requests of no fleet between calls (built-in control: "at most one vehicle per request")
+            prof["fleets"] = [2, 3][(i // 4) % 2]
+            opts = {"inject_requests": {"every": 5, "public": True}}
+        cases.append(trace_case("C17", i, s, prof, ctrl, steps, ["C17"], opts=opts))
     cases += systematic_cases("C17", tier, seed)
     if tier == "thorough":
         for w in ("denver_downtown/denver_demo.yaml", "denver_downtown/denver_demo_fleets.yaml"):
